@@ -53,6 +53,14 @@ MUTANTS = [
     ("C09", "ValidateNoReferenceToOwnName", "line/common/connection.py", "        if isinstance(ref, gfapy.Line):\n          ref = ref.name\n        if ref == name:", "        if ref == name:"),
     ("C09", "ValidateNoReferenceToOwnName", "line/common/connection.py", "    if gfapy.is_placeholder(name):\n      return\n    if not isinstance(name, str):", "    if not isinstance(name, str):"),
     ("C09", "ValidateNoReferenceToOwnName", "line/common/connection.py", "      for ref in (value if isinstance(value, list) else [value]):\n        if isinstance(ref, gfapy.OrientedLine):\n          ref = ref.line", "      for ref in (value[1:] if isinstance(value, list) else [value]):\n        if isinstance(ref, gfapy.OrientedLine):\n          ref = ref.line"),
+    ("C13", "ProcessLineQueue", "lines/creators.py", "    for i in range(0,len(self._line_queue)):", "    for i in range(1,len(self._line_queue)):"),
+    ("C13", "ProcessLineQueue", "lines/creators.py", "      self.add_line(self._line_queue[i])\n    self._line_queue = []", "      self.add_line(self._line_queue[i])"),
+    ("C13", "ProcessLineQueue", "lines/creators.py", "    if self._version is None:\n      self._version = self._version_guess\n    for i in range(0,len(self._line_queue)):\n      self.add_line(self._line_queue[i])", "    for i in range(0,len(self._line_queue)):\n      self.add_line(self._line_queue[i])\n    if self._version is None:\n      self._version = self._version_guess"),
+    ("C13", "ProcessLineQueue", "lines/creators.py", "      self.add_line(self._line_queue[i])\n    self._line_queue = []", "      self.add_line(self._line_queue[0])\n    self._line_queue = []"),
+    ("C06", "CheckGfa1PathSteps", "line/group/ordered/to_gfa1.py", '      elif oedge.orient == "+":', '      elif oedge.orient == "-":'),
+    ("C06", "CheckGfa1PathSteps", "line/group/ordered/to_gfa1.py", "      if not edge.is_dovetail():\n        ok = False\n      elif", "      if False:\n        ok = False\n      elif"),
+    ("C06", "CheckGfa1PathSteps", "line/group/ordered/to_gfa1.py", "    for i in range(1, len(cp)-1, 2):", "    for i in range(3, len(cp)-1, 2):"),
+    ("C06", "CheckGfa1PathSteps", "line/group/ordered/to_gfa1.py", "              edge.oriented_to == prev.inverted())", "              edge.oriented_to == nxt.inverted())"),
     ("C10", "TakeBackAssignedIds", "gfa.py", "    self._max_int_name = max_int_name", "    pass"),
     ("C10", "TakeBackAssignedIds", "gfa.py", "    for rt in records:\n      self._records[rt] = records[rt]", "    for rt in records:\n      self._records[rt] = records[\"L\"]"),
     ("C10", "TakeBackAssignedIds", "gfa.py", '      if l.is_connected() and l.get("ID") is not None:', '      if l.get("ID") is not None:'),
